@@ -290,6 +290,19 @@ func foldAt(fn *ssa.Function, arg uint64) (uint64, bool) {
 	if len(fn.Params) != 1 || len(fn.Blocks) == 0 {
 		return 0, false
 	}
+	return foldCore(fn, &arg, nil)
+}
+
+// foldLoads: like foldAt for a function whose inputs are loads from memory (members
+// of its receiver / arguments): load gives the value of each load instruction.
+func foldLoads(fn *ssa.Function, load func(*ssa.UnOp) (uint64, bool)) (uint64, bool) {
+	if len(fn.Blocks) == 0 {
+		return 0, false
+	}
+	return foldCore(fn, nil, load)
+}
+
+func foldCore(fn *ssa.Function, argp *uint64, load func(*ssa.UnOp) (uint64, bool)) (uint64, bool) {
 	val := map[ssa.Value]uint64{}
 	trunc := func(u uint64, t types.Type) (uint64, bool) {
 		w, ok := intWidth(t)
@@ -315,11 +328,13 @@ func foldAt(fn *ssa.Function, arg uint64) (uint64, bool) {
 		}
 		return int64(u)
 	}
-	a0, ok := trunc(arg, fn.Params[0].Type())
-	if !ok {
-		return 0, false
+	if argp != nil {
+		a0, ok := trunc(*argp, fn.Params[0].Type())
+		if !ok {
+			return 0, false
+		}
+		val[fn.Params[0]] = a0
 	}
-	val[fn.Params[0]] = a0
 	blk, prev := fn.Blocks[0], (*ssa.BasicBlock)(nil)
 	for steps := 0; steps < 10000; steps++ {
 		for _, in := range blk.Instrs {
@@ -351,7 +366,24 @@ func foldAt(fn *ssa.Function, arg uint64) (uint64, bool) {
 					return 0, false
 				}
 				val[x] = u
+			case *ssa.FieldAddr, *ssa.IndexAddr:
+				// addresses are not values; the loads through them are resolved by the hook
 			case *ssa.UnOp:
+				if x.Op == token.MUL {
+					if load == nil {
+						return 0, false
+					}
+					u, ok := load(x)
+					if !ok {
+						return 0, false
+					}
+					r, ok := trunc(u, x.Type())
+					if !ok {
+						return 0, false
+					}
+					val[x] = r
+					continue
+				}
 				u, ok := get(x.X)
 				if !ok {
 					return 0, false
